@@ -32,6 +32,18 @@ def lock_constructor(ctx, rep):
     return L
 
 
+def _callers_of(ctx, key):
+    out = set()
+    for b in ctx.facts.doc["bodies"]:
+        if b["key"].startswith(("testing::", "<testing::")):
+            continue
+        for blk in b["blocks"]:
+            t = blk["term"]
+            if not blk.get("cleanup") and t["k"] == "call" and (t.get("callee") or {}).get("rkey") == key:
+                out.add(b["key"])
+    return out
+
+
 def run(ctx, rep):
     rep.rule("R13.1", "in RaftLog::open and Dump::new every file-system event (open, read, write, truncate, sync, unlink, read_dir, thread spawn) "
                       "outside the lock constructor is preceded by the Ok edge of the lock constructor")
@@ -71,7 +83,7 @@ def run(ctx, rep):
     aggs = ctx.all_aggregates(r"file_lock::FileLock$")
     for b, bi, si, s in aggs:
         where = "%s:%d" % (rel(s["file"]), s["line"])
-        if b["key"] != L:
+        if b["key"] != L and not b["key"].startswith(L + "::{closure"):
             rep.violation("R13.4", "FileLock-constructed-in:%s" % short_key(b["key"]), "FileLock{..}",
                           "a FileLock value is built outside the lock constructor (without taking the lock)", where=where)
         else:
@@ -157,7 +169,7 @@ def run(ctx, rep):
         # R13.4 constructor sites
         for b, bi, si, s in ctx.all_aggregates(adt_rx):
             where = "%s:%d" % (rel(s["file"]), s["line"])
-            if b["key"] != key:
+            if b["key"] != key and not b["key"].startswith(key + "::{closure"):
                 rep.violation("R13.4", "%s-constructed-in:%s" % (nm, short_key(b["key"])), "%s{..}" % nm,
                               "a %s value is built outside its locking constructor" % nm, where=where)
             else:
@@ -258,16 +270,26 @@ def run(ctx, rep):
     unl = ctx.all_calls(UNLOCK_EVENT)
     # dropping the owner must give the directory back at that moment: an explicit unlock in the lock's Drop. Merely closing the descriptor
     # releases a flock only when no duplicate of the open file description exists (a forked child holds one until it execs or exits)
-    drops_unlock = [b for b, bi, t in unl if re.search(r"file_lock::FileLock as std::ops::Drop>::drop$", b["key"])]
-    if not drops_unlock:
+    drop_keys = [b["key"] for b in ctx.facts.doc["bodies"] if re.search(r"file_lock::FileLock as std::ops::Drop>::drop$", b["key"])]
+    drop_cone = set()
+    drop_reaches_unlock = False
+    for dk in drop_keys:
+        gd = ctx.graph(dk)
+        drop_cone |= {i.key for i in gd.insts}
+        if ctx.product(dk).calls(UNLOCK_EVENT):
+            drop_reaches_unlock = True
+    drops_unlock = [b for b, bi, t in unl if b["key"] in drop_cone]
+    if not drop_reaches_unlock:
         rep.violation("R13.2", "FileLock|drop-does-not-unlock", "Drop for FileLock",
                       "the lock value's Drop does not unlock: the directory stays locked after the owner was dropped for as long as any "
                       "duplicate of the descriptor lives (fork window of a concurrent Command::spawn), so the next open is refused",
                       where="src/file_lock.rs")
     for b, bi, t in unl:
         where = "%s:%d" % (rel(t["file"]), t["line"])
-        if re.search(r"file_lock::FileLock as std::ops::Drop>::drop$", b["key"]):
-            rep.ok("R13.2", "unlock in Drop for FileLock", "", where=where, nontrivial=False)
+        callers_ok = b["key"] in drop_cone and (re.search(r"file_lock::FileLock as std::ops::Drop>::drop$", b["key"]) or
+                                                 all(c_ in drop_cone for c_ in _callers_of(ctx, b["key"])))
+        if callers_ok:
+            rep.ok("R13.2", "unlock in Drop for FileLock", "in the cone of Drop (and called from nowhere else)", where=where, nontrivial=False)
         else:
             rep.violation("R13.2", "unlock-outside-drop:%s" % short_key(b["key"]), "unlock",
                           "the directory lock is released outside FileLock's Drop (while the owner may still be alive)", where=where)
